@@ -60,9 +60,6 @@ META = {
         'prefetch of a many-to-many collection, lookups in a session that already holds such a seed) and only if the '
         'class is right after obj.load(); a wrongly typed seed or loaded object anywhere else is a violation.',
         '`not isinstance(x.ref, C)` with x.ref None is bracketed (Python True, SQL unknown).',
-        'References inside one hierarchy (parent / children) are generated acyclic: Query.prefetch() of a one-to-many '
-        'self reference does not terminate on a reference cycle reached through a many-to-many link (pony defect '
-        'outside C27, reported to the lead) and would only trip the watchdog.',
         'Objects of a diamond class referenced through attributes typed by two unrelated branches (the F_DIAMOND '
         'situation) are generated only in every fourth diagram, so that the other monitors keep their power.',
     ],
@@ -90,6 +87,7 @@ SHAPES = {
     'diamond_ext': [('A', []), ('B', ['A']), ('C', ['A']), ('D', ['B', 'C']), ('E', ['D']), ('F', ['C'])],
     'double_diamond': [('A', []), ('B', ['A']), ('C', ['A']), ('D', ['B', 'C']), ('E', ['A']), ('F', ['D', 'E'])],
 }
+PLAIN = ('Owner', 'Link', 'Hub')
 SHAPE_ORDER = ['chain', 'diamond', 'tree', 'diamond_ext', 'chain4', 'double_diamond']
 PK_KINDS = ['int', 'str', 'composite', 'auto']
 DISCR_KINDS = ['implicit', 'str', 'int', 'str_partial']
@@ -117,8 +115,11 @@ def gen_spec(rng, idx):
             elif dk == 'str': c['discr'] = svals[i]
             elif dk == 'str_partial': c['discr'] = svals[i] if rng.random() < 0.5 else None
             else: c['discr'] = None
-    plain = [dict(name='Owner', bases=[], root='Owner')]
-    spec['roots'].append({'name': 'Owner', 'pk': 'int', 'discr': 'none'})
+    # plain entities (no subclasses): objects of them reached through a reference stay pk-only seeds until read, so
+    # Hub.link.lowner.fav / Link.thing are reference CHAINS whose intermediate objects are seeds at the moment their
+    # own reference attribute is read
+    plain = [dict(name=n, bases=[], root=n) for n in PLAIN]
+    for n in PLAIN: spec['roots'].append({'name': n, 'pk': 'int', 'discr': 'none'})
     classes = hier + hier2 + plain
     # scalar attributes
     for c in classes:
@@ -137,19 +138,26 @@ def gen_spec(rng, idx):
     hn = [c['name'] for c in hier]; hn2 = [c['name'] for c in hier2]
     subs = [c['name'] for c in hier if c['bases']]
     rels = []
-    def rel(kind, a, an, b, bn): rels.append({'kind': kind, 'a': a, 'an': an, 'b': b, 'bn': bn})
+    def rel(kind, a, an, b, bn, lazy=False): rels.append({'kind': kind, 'a': a, 'an': an, 'b': b, 'bn': bn, 'lazy': lazy})
+    def maybe_lazy(): return rng.random() < 0.3
     # kinds: 'n1' a.an = Optional(b) / b.bn = Set(a);  'mm' both Set;  '11' both Optional
     rel('n1', rng.choice(hn), 'owner', 'Owner', 'things')             # one-to-many typed by (often) a base
     rel('mm', 'Owner', 'many', 'A' if rng.random() < 0.6 else rng.choice(hn), 'mm')   # m2m typed by base: seeds
-    rel('n1', 'Owner', 'fav', rng.choice(hn), 'fans')                  # to-one INTO the hierarchy
+    rel('n1', 'Owner', 'fav', rng.choice(hn), 'fans', maybe_lazy())     # to-one INTO the hierarchy
     rel('mm', 'Owner', 'picks', rng.choice(subs), 'pickers')           # m2m typed by a subclass
-    rel('n1', rng.choice(hn), 'parent', rng.choice(hn), 'children')    # self reference in the hierarchy
+    rel('n1', rng.choice(hn), 'parent', rng.choice(hn), 'children', maybe_lazy())    # self reference in the hierarchy
     if rng.random() < 0.7: rel('mm', rng.choice(subs), 'links', rng.choice(hn), 'backs')
     if rng.random() < 0.6: rel('11', rng.choice(hn), 'buddy', rng.choice(subs), 'buddy_of')
     if hn2:
-        rel('n1', rng.choice(hn2), 'target', rng.choice(hn), 'aimed')  # cross-root to-one
+        rel('n1', rng.choice(hn2), 'target', rng.choice(hn), 'aimed', maybe_lazy())  # cross-root to-one
         if rng.random() < 0.7: rel('mm', rng.choice(hn2), 'xs', rng.choice(hn), 'ps')
-        if rng.random() < 0.5: rel('n1', rng.choice(hn), 'pref', rng.choice(hn2), 'prefd')
+        if rng.random() < 0.5: rel('n1', rng.choice(hn), 'pref', rng.choice(hn2), 'prefd', maybe_lazy())
+        rel('n1', 'Link', 'pthing', rng.choice(hn2), 'plinked')
+    # reference chains through plain entities, and lazy references into the hierarchy
+    rel('n1', 'Link', 'lowner', 'Owner', 'olinks')
+    rel('n1', 'Link', 'thing', 'A' if rng.random() < 0.5 else rng.choice(hn), 'linked')
+    rel('n1', 'Hub', 'link', 'Link', 'hubs')
+    rel('n1', 'Hub', 'hthing', 'A' if rng.random() < 0.5 else rng.choice(hn), 'hubbed', True)
     spec['rels'] = rels
     return spec
 
@@ -167,6 +175,7 @@ class Info(object):
             self.anc[c['name']] = s
         self.desc = {n: {m for m in self.order if n in self.anc[m]} for n in self.order}   # incl. self
         self.root = {c['name']: c['root'] for c in spec['classes']}
+        self.lazyrefs = {r['an'] for r in spec['rels'] if r.get('lazy')}
         self.rootspec = {r['name']: r for r in spec['roots']}
         self.members = {r['name']: [n for n in self.order if self.root[n] == r['name']] for r in spec['roots']}
         # attributes visible on class n: own + inherited.  scalar: name -> (decl class, type, required, unique)
@@ -223,7 +232,7 @@ def render(spec):
             L.append('    %s = %s(%s%s)' % (a['name'], 'Required' if a['required'] else 'Optional', t, opts))
         for r in spec['rels']:
             if r['kind'] == 'n1':
-                if r['a'] == n: L.append('    %s = Optional(%r, reverse=%r)' % (r['an'], r['b'], r['bn']))
+                if r['a'] == n: L.append('    %s = Optional(%r, reverse=%r%s)' % (r['an'], r['b'], r['bn'], ', lazy=True' if r.get('lazy') else ''))
                 if r['b'] == n: L.append('    %s = Set(%r, reverse=%r)' % (r['bn'], r['a'], r['an']))
             elif r['kind'] == 'mm':
                 if r['a'] == n: L.append('    %s = Set(%r, reverse=%r)' % (r['an'], r['b'], r['bn']))
@@ -293,7 +302,7 @@ def populate(ctx, env, rng, per_class):
         for cname in info.order:
             root = info.root[cname]
             kind = info.rootspec[root]['pk']
-            for j in range(per_class if cname != 'Owner' else 2):
+            for j in range(per_class if cname not in PLAIN else (2 if cname == 'Owner' else 3)):
                 k = counters[root] = counters.get(root, 0) + 1
                 kw = {}
                 if kind == 'int': pk = k; kw['id'] = pk
@@ -329,15 +338,10 @@ def populate(ctx, env, rng, per_class):
             A = M.instances(info, r['a']); B = M.instances(info, r['b'])
             if not A or not B: continue
             if r['kind'] == 'n1':
-                same_h = info.root[r['a']] == info.root[r['b']]
+                p_link = 0.9 if r['a'] in PLAIN else 0.75
                 for a in A:
-                    if rng.random() < 0.75:
-                        # references inside one hierarchy are kept acyclic: Query.prefetch() of a one-to-many self
-                        # reference never terminates on a reference cycle reached through a many-to-many link (pony
-                        # defect outside C27, reported separately) and would only trip the watchdog here
-                        cand = [b for b in B if b < a] if same_h else B
-                        if not cand: continue
-                        b = rng.choice(cand)
+                    if rng.random() < p_link:
+                        b = rng.choice(B)            # cycles inside one hierarchy (a.parent = b, b.parent = a) included
                         if not (link_ok(b, r['b']) and link_ok(a, r['a'])): continue
                         linked(a, b, r)
                         setattr(live[a], r['an'], live[b])
@@ -477,7 +481,7 @@ def observe(ctx, env, M, obj, oid, path, touch=True):
     got = type(obj).__name__
     ctx.count('type_checks'); ctx.count('path.' + path)
     if seed: ctx.count('seeds_observed')
-    nontrivial = want != 'Owner'
+    nontrivial = want not in PLAIN
     ctx.case([env.fp, 'path', path, want, got], nontrivial=nontrivial,
              sample={'path': path, 'created_as': want, 'type': got, 'seed': seed})
     ok = True
@@ -591,7 +595,7 @@ def paths_direct(ctx, env, M, preseed=None):
                     except ObjectNotFound as e: r, exc = None, e
                     path = tag + how
                     ctx.count('lookup.' + path)
-                    ctx.case([env.fp, path, kname, o['cls']], nontrivial=kname != 'Owner')
+                    ctx.case([env.fp, path, kname, o['cls']], nontrivial=kname not in PLAIN)
                     if how == 'exists': good = (r is isa)
                     elif isa: good = r is not None and exc is None
                     else: good = (r is None)
@@ -669,7 +673,7 @@ def paths_select(ctx, env, M):
         ]
         for name, f in forms:
             with sess(ctx, env, M, (name, kname)):
-                ctx.case([env.fp, name, kname], nontrivial=kname != 'Owner')
+                ctx.case([env.fp, name, kname], nontrivial=kname not in PLAIN)
                 ctx.count('polymorphic_reads')
                 expect_set(ctx, env, M, list(f()), inst, name, kname)
         with sess(ctx, env, M, ('aggregates', kname)):
@@ -688,7 +692,7 @@ def paths_select(ctx, env, M):
                     checks.append(('kw_count_%r' % v, K.select(**{xattr: v}).count(), want))
                     checks.append(('kw_exists_%r' % v, K.exists(**{xattr: v}), want > 0))
             for name, got, want in checks:
-                ctx.case([env.fp, 'agg', name, kname], nontrivial=kname != 'Owner')
+                ctx.case([env.fp, 'agg', name, kname], nontrivial=kname not in PLAIN)
                 ctx.count('polymorphic_reads')
                 if got != want:
                     ctx.violation(witness(env, M, path='aggregate', what=name, entity=kname, got=got, want=want),
@@ -702,7 +706,7 @@ def paths_select(ctx, env, M):
         with sess(ctx, env, M, ('select_random', kname)):
             k = 2
             r = K.select_random(k)
-            ctx.case([env.fp, 'select_random', kname], nontrivial=kname != 'Owner')
+            ctx.case([env.fp, 'select_random', kname], nontrivial=kname not in PLAIN)
             keys = [x._pkval_ for x in r]
             if len(set(keys)) != len(keys) or len(keys) != min(k, len(inst)):
                 ctx.violation(witness(env, M, path='select_random', entity=kname, got=repr(r), n=len(inst)), mechanism='polymorphic-result-set')
@@ -729,7 +733,7 @@ def paths_sql(ctx, env, M, preseed_all=None):
                 ', '.join('"%s"' % c for c in pkcols + [dcol]), tbl, dcol, ', '.join(sqllit(v) for v in dv))
         with sess(ctx, env, M, (tag + 'select_by_sql', kname)):
             if preseed_all: preseed_all()
-            ctx.case([env.fp, tag + 'select_by_sql', kname], nontrivial=kname != 'Owner')
+            ctx.case([env.fp, tag + 'select_by_sql', kname], nontrivial=kname not in PLAIN)
             ctx.count('polymorphic_reads')
             expect_set(ctx, env, M, list(K.select_by_sql(sql)), inst, tag + 'select_by_sql', kname)
         for oid in inst[:3]:
@@ -739,7 +743,7 @@ def paths_sql(ctx, env, M, preseed_all=None):
             one = sql + (' AND ' if ' WHERE ' in sql else ' WHERE ') + cond
             with sess(ctx, env, M, (tag + 'get_by_sql', kname, oid)):
                 if preseed_all: preseed_all()
-                ctx.case([env.fp, tag + 'get_by_sql', kname, o['cls']], nontrivial=kname != 'Owner')
+                ctx.case([env.fp, tag + 'get_by_sql', kname, o['cls']], nontrivial=kname not in PLAIN)
                 r = K.get_by_sql(one)
                 if r is None: ctx.violation(witness(env, M, path='get_by_sql', sql=one), mechanism='lookup-disagrees-with-model')
                 else: observe(ctx, env, M, r, oid, tag + 'get_by_sql')
@@ -760,7 +764,9 @@ def paths_nav(ctx, env, M):
                     if t is not None: ctx.violation(witness(env, M, path='fk_nav', oid=oid, attr=an, got=repr(t)), mechanism='reference-value')
                 elif t is None or t._pkval_ != M.objs[tid]['pk']:
                     ctx.violation(witness(env, M, path='fk_nav', oid=oid, attr=an, got=repr(t)), mechanism='reference-value')
-                else: observe(ctx, env, M, t, tid, 'fk_nav')
+                else:
+                    if an in info.lazyrefs: ctx.count('fk_nav.lazy_attr')
+                    observe(ctx, env, M, t, tid, 'fk_nav')
         for an, tids in o['sets'].items():
             decl, tcls, rname, rkind = info.sets[o['cls']][an]
             kind = 'm2m' if rkind == 'set' else 'o2m'
@@ -789,6 +795,83 @@ def paths_nav(ctx, env, M):
                     ctx.count('membership_checks')
                     if got != (tid in tids):
                         ctx.violation(witness(env, M, path='coll_contains', oid=oid, attr=an, item=tid, got=got), mechanism='polymorphic-collection-membership')
+
+
+def paths_chain(ctx, env, M, rng, quick):
+    """Reference CHAINS  start.a1.a2[.a3]  (and  item.a2  for every item of a collection): each hop is read on the object
+    the previous hop returned, so intermediate objects are whatever the session holds at that moment -- for entities
+    without subclasses an unloaded pk-only seed whose row is loaded by this very access.  The final target must have
+    its creating class, whether or not the hop had to load its owner first, and also when the attribute is lazy."""
+    info = env.info
+    chains2, chains3 = [], []
+    for oid, o in M.objs.items():
+        for a1, t1 in o['refs'].items():
+            if t1 is None: continue
+            for a2, t2 in M.objs[t1]['refs'].items():
+                if t2 is None: continue
+                chains2.append((oid, (a1, a2), (t1, t2)))
+                for a3, t3 in M.objs[t2]['refs'].items():
+                    if t3 is None: continue
+                    chains3.append((oid, (a1, a2, a3), (t1, t2, t3)))
+    # every chain whose intermediates are all objects of plain entities (the seeds pony does not load by itself); of the
+    # others a seeded sample
+    def plain_mid(ch): return all(M.objs[t]['cls'] in PLAIN for t in ch[2][:-1])
+    cap = 150 if quick else 500
+    chosen = []
+    for group in (chains2, chains3):
+        first = [c for c in group if plain_mid(c)]
+        rest = [c for c in group if not plain_mid(c)]
+        rng.shuffle(rest)
+        chosen += first[:cap * 2] + rest[:cap]
+    for oid, attrs, tids in chosen:
+        o = M.objs[oid]
+        name = 'chain%d' % len(attrs)
+        with sess(ctx, env, M, (name, o['cls'], list(attrs), oid)):
+            x = env.E[info.root[o['cls']]][o['pk']]
+            mids = []
+            ok = True
+            for i, a in enumerate(attrs):
+                if i: mids.append(is_seed(x))         # was the object we are about to read from an unloaded seed?
+                x = getattr(x, a)
+                if x is None or x._pkval_ != M.objs[tids[i]]['pk']:
+                    ctx.violation(witness(env, M, path=name, oid=oid, attrs=list(attrs), hop=i, got=repr(x)), mechanism='reference-value')
+                    ok = False; break
+            if not ok: continue
+            last = attrs[-1]
+            tcls = M.objs[tids[-1]]['cls']
+            declared = info.refs[M.objs[tids[-2]]['cls']][last][1]
+            ctx.case([env.fp, name, o['cls'], list(attrs), tcls, mids], nontrivial=True,
+                     sample={'path': name, 'start': o['cls'], 'attrs': list(attrs), 'intermediate_was_seed': mids, 'target': tcls})
+            ctx.count('chain.cases')
+            if any(mids): ctx.count('chain.intermediate_seed')
+            if mids[-1]: ctx.count('chain.owner_seed_at_read')
+            if mids[-1] and tcls != declared: ctx.count('chain.owner_seed_at_read.target_is_subclass')
+            if last in info.lazyrefs:
+                ctx.count('chain.lazy_last')
+                if tcls != declared: ctx.count('chain.lazy_last.target_is_subclass')
+            observe(ctx, env, M, x, tids[-1], name)
+    # collection item -> reference
+    for oid, o in M.objs.items():
+        for an, items in o['sets'].items():
+            decl, tcls, rname, rkind = info.sets[o['cls']][an]
+            for a2 in info.refs[tcls]:
+                if not any(M.objs[t]['refs'].get(a2) is not None for t in items): continue
+                with sess(ctx, env, M, ('chain_coll', o['cls'], an, a2, oid)):
+                    src = env.E[info.root[o['cls']]][o['pk']]
+                    ctx.case([env.fp, 'chain_coll', o['cls'], an, a2, rkind], nontrivial=True)
+                    for item in getattr(src, an):
+                        tid = M.by_pk(info, info.root[tcls], item._pkval_)
+                        if tid is None: continue
+                        want = M.objs[tid]['refs'].get(a2)
+                        seed = is_seed(item)
+                        got = getattr(item, a2)
+                        ctx.count('chain.coll_item_reads')
+                        if seed: ctx.count('chain.coll_item_seed_at_read')
+                        if want is None:
+                            if got is not None: ctx.violation(witness(env, M, path='chain_coll', oid=oid, attr=an, a2=a2, got=repr(got)), mechanism='reference-value')
+                        elif got is None or got._pkval_ != M.objs[want]['pk']:
+                            ctx.violation(witness(env, M, path='chain_coll', oid=oid, attr=an, a2=a2, got=repr(got)), mechanism='reference-value')
+                        else: observe(ctx, env, M, got, want, 'chain_coll')
 
 
 def paths_prefetch(ctx, env, M):
@@ -852,7 +935,7 @@ def paths_proxy_pickle(ctx, env, M):
     for kname, (blob, pks) in qblobs.items():
         with sess(ctx, env, M, ('unpickle_queryresult', kname)):
             res = pickle.loads(blob)
-            ctx.case([env.fp, 'unpickle_queryresult', kname], nontrivial=kname != 'Owner')
+            ctx.case([env.fp, 'unpickle_queryresult', kname], nontrivial=kname not in PLAIN)
             if [x._pkval_ for x in res] != pks:
                 ctx.violation(witness(env, M, path='unpickle_queryresult', entity=kname), mechanism='polymorphic-result-set')
             expect_set(ctx, env, M, list(res), M.instances(info, kname), 'unpickle_queryresult', kname)
@@ -998,7 +1081,7 @@ def queries_isinstance(ctx, env, M, rng, quick):
     from pony.orm import db_session
     info = env.info
     for kname in info.order:
-        if kname == 'Owner' and quick: continue
+        if kname in PLAIN and quick: continue
         E = env.E[kname]
         inst = M.instances(info, kname)
         for ci in classinfos(info, rng, kname, quick):
@@ -1228,7 +1311,7 @@ def run_spec(ctx, spec, pop_seed, quick, only=None, per_class=None):
                          [[a['name'], a['required'], a['unique']] for c in spec['classes'] for a in c['attrs']]])
     ctx.count('databases'); ctx.count('shape.' + spec['shape'])
     for r in spec['roots']:
-        if r['name'] != 'Owner': ctx.count('pk.' + r['pk']); ctx.count('discr.' + r['discr'])
+        if r['name'] not in PLAIN: ctx.count('pk.' + r['pk']); ctx.count('discr.' + r['discr'])
     try: M = populate(ctx, env, rng, env.per_class)
     except Exception:
         import traceback
@@ -1245,6 +1328,7 @@ def run_spec(ctx, spec, pop_seed, quick, only=None, per_class=None):
         ('sql', lambda: paths_sql(ctx, env, M)),
         ('sql_mixed', lambda: paths_sql(ctx, env, M, preseed_all)),
         ('nav', lambda: paths_nav(ctx, env, M)),
+        ('chain', lambda: paths_chain(ctx, env, M, rng, quick)),
         ('prefetch', lambda: paths_prefetch(ctx, env, M)),
         ('proxy_pickle', lambda: paths_proxy_pickle(ctx, env, M)),
         ('isinstance', lambda: queries_isinstance(ctx, env, M, rng, quick)),
